@@ -105,7 +105,7 @@ class Ctx:
                                                        'sky_ellipseannulus', 'sky_rectangleannulus', 'sky_point', 'sky_line', 'sky_text',
                                                        'sky_circle_gal', 'sky_ellipse_excl')])
         self.list_crtf = Regions([self.reg[n] for n in ('sky_circle', 'sky_ellipse', 'sky_rectangle', 'sky_polygon', 'sky_circleannulus',
-                                                        'sky_line', 'sky_text', 'sky_circle_gal', 'sky_ellipse_excl')])
+                                                        'sky_line', 'sky_text', 'sky_circle_gal', 'sky_ellipse_excl', 'sky_circle_spectral')])
         self.list_mixed = Regions([self.reg[n] for n in ('circle', 'sky_circle', 'line', 'text', 'rectangleannulus', 'sky_text')])
         # RegionMask objects held by the caller (inputs of the mask-application operations)
         self.masks = [self.reg['circle'].to_mask('center'), self.reg['ellipse'].to_mask('subpixels', subpixels=3),
